@@ -531,11 +531,13 @@ impl<H: Host> Z80Bus for ZXController<H> {
             }
             // 5 and 7 bits are unused
             tmp
-        } else if self.mouse.is_some() && (port & 0x0121 == 0x0001) {
+        } else if self.mouse.is_some() && (port & 0x01A1 == 0x0081) {
+            // Kempston mouse ports (xxDF family) have A7 set, which keeps them
+            // apart from the Kempston joystick (A7..A5 reset)
             self.mouse.as_ref().unwrap().buttons_port
-        } else if self.mouse.is_some() && (port & 0x0521 == 0x0101) {
+        } else if self.mouse.is_some() && (port & 0x05A1 == 0x0181) {
             self.mouse.as_ref().unwrap().x_pos_port
-        } else if self.mouse.is_some() && (port & 0x0521 == 0x0501) {
+        } else if self.mouse.is_some() && (port & 0x05A1 == 0x0581) {
             self.mouse.as_ref().unwrap().y_pos_port
         } else if port & 0xC002 == 0xC000 {
             self.read_ay_port()
